@@ -233,7 +233,7 @@ def scanner_contracts():
 def contracts():
     # the per-line consumer of the scanner and the line counter belong to this property too
     from . import core
-    extra = [c for c in core.contracts() if c.interface or c.ident in ("CsvPath._consider_line", "LineMonitor.next_line", "CsvPath.next")]
+    extra = core.select(core.contracts(), ("CsvPath._consider_line", "LineMonitor.next_line", "CsvPath.next"))
     return scanner_contracts() + extra
 
 
